@@ -394,7 +394,7 @@ RULE_ADDENDA = {
            "again after the return (a failing marker Save in that invocation excepted, as documented). The application skips every BigMessage in half of the histories (the next ReadSlices discards the payload); bigSkippedThenLoss: a message beyond the read buffer whose tail is cut by a read fault (reset, EOF, stall) while the skipped payload is discarded.",
     'C05': "Also: 1 in 4 histories start from a session positioned at the identifier wrap; optional restart at the end "
            "(adoption, continuation, resend order and DUP of the next process).",
-    'C06': "Also (full-size read buffer only): 1 in 400 messages has a remaining length of 2,097,151, 2,097,152 or 2,097,153 bytes (three-byte to four-byte length).",
+    'C06': "Also (full-size read buffer only): 1 in 400 messages has a remaining length of 2,097,151, 2,097,152 or 2,097,153 bytes (three-byte to four-byte length). In 1 of 4 cases an earlier connection came first, which delivered 1-3 packets with a body and then failed inside ReadSlices (nothing of it may leak into the next connection).",
     'C07': "Also: storeFault(S|L|D) on the inbound path. Same BigMessage skipping and bigSkippedThenLoss as in C04.",
     'C08': "Also: resendFault (connection lost; a write fault 0-90 bytes into the retransmission on the next connection, of kind "
            "timeout, timeout-with-progress or reset). TestC08Loopback: a real client over TCP on 127.0.0.1 (net.Buffers through "
